@@ -13,6 +13,11 @@ def boundary_cases(ctx):
         out.append(codec.Case(('octs',), ('o', bytes((i * 7 + n) % 251 for i in range(n)) if n < 300 else bytes([n % 251]) * n)))
     for n in ((7992, 7993, 8001) if ctx.tier == 'quick' else (7985, 7991, 7992, 7993, 8000, 8001, 15985, 16003)):   # BIT STRING around 999 / 1000 octets of bits (9.2)
         out.append(codec.Case(('bits',), ('bits', tuple((i * i + n) % 3 == 0 and 1 or 0 for i in range(n)))))
+    # long strings under an IMPLICIT and an EXPLICIT tag: the segments keep the universal tag of the string type
+    for T0, v0 in ((('bits',), ('bits', tuple((i * 7) % 5 == 0 and 1 or 0 for i in range(8001)))),
+                   (('octs',), ('o', bytes([7]) * 1001)), (('str', 'UTF8String'), ('chars', 'x' * 1500))):
+        for wrap in (lambda t: ('imp', (128, 0, 5), t), lambda t: ('exp', (64, 0, 31), t), lambda t: ('imp', (192, 0, 40), ('exp', (128, 0, 2), t))):
+            out.append(codec.Case(wrap(T0), v0))
     for n in (999, 1001, 2500):
         out.append(codec.Case(('str', 'IA5String'), ('chars', 'q' * n)))
         out.append(codec.Case(('seq', [('req', ('str', 'UTF8String')), ('req', ('int',))]),
@@ -26,6 +31,11 @@ def run(ctx):
                 'read back by Spec.X690.read; non-trivial = constructed/tagged type or a forced boundary')
     cases = codec.gen_cases(ctx, ctx.n(150, 3000), depth=3, any_der=True)
     cases += codec.leaf_boundary_cases(ctx, every=3 if ctx.tier == 'quick' else 1)
+    # SETs whose members are nested CHOICEs (untagged, or under an EXPLICIT tag of their own) with sibling tags in between
+    from harness.props import c17 as _c17
+    for T_, v_, _how in _c17.set_choice_cases(ctx, gen.Gen(ctx.rng), ctx.n(8, 150)):
+        try: cases.append(codec.Case(T_, v_))
+        except Exception: ctx.stats['set_choice_unbuildable'] += 1
     nrandom = len(cases)
     cases += boundary_cases(ctx)
     exprs, meta = [], []
